@@ -44,7 +44,8 @@ def gen_cl_small(rng, n, limits=False):
         elif style == 'byte':
             t = bl.run_real('cl', data, cl, buf, mb, schedule=[1] * (d + 2), ctype=rng.choice(bl.CTYPES))
         else:
-            t = bl.run_real('cl', data, cl, buf, mb, rng=rng, short_p=rng.choice([0.2, 0.6, 1.0]), ctype=rng.choice(bl.CTYPES))
+            t = bl.run_real('cl', data, cl, buf, mb, rng=rng, short_p=rng.choice([0.2, 0.6, 1.0]), ctype=rng.choice(bl.CTYPES),
+                            via=rng.choice([None, None, None, 'stream']))
         out.append(t)
     return out
 
@@ -60,7 +61,8 @@ def gen_cl_large(rng, n, limits=False):
         if limits:
             mb = rng.choice([d - 1, d, d + 1, d // 2, 100 * 1024, 1024 * 1024])
         data = rand_bytes(rng, d)
-        t = bl.run_real('cl', data, cl, buf, mb, rng=rng if rng.random() < 0.7 else None, short_p=0.3, ctype=rng.choice(bl.CTYPES))
+        t = bl.run_real('cl', data, cl, buf, mb, rng=rng if rng.random() < 0.7 else None, short_p=0.3, ctype=rng.choice(bl.CTYPES),
+                        via=rng.choice([None, None, 'stream']))
         out.append(t)
     return out
 
@@ -81,6 +83,9 @@ def gen_chunked(rng, n, limits=False, big=False):
         if limits:
             mb = max(-1, rng.choice([0, plen - 1, plen, plen + 1, plen // 2, plen + 100]))
         kind = rng.choice(['legal', 'legal', 'prefix', 'corrupt', 'junk']) if not (limits or big) else 'legal'
+        if not limits and kind == 'legal' and rng.random() < 0.2:
+            # a configured maximum that the PAYLOAD just fits (the framing around it does not count)
+            mb = plen + rng.choice([0, 0, 1, 3])
         inp, expect = enc, payload
         if kind == 'prefix':
             inp = enc[:rng.randint(0, len(enc) - 1)]
@@ -118,7 +123,8 @@ def gen_chunked(rng, n, limits=False, big=False):
             t = bl.run_real('chunked', inp, cl, buf, mb, rng=rng, short_p=rng.choice([0.3, 1.0]), kind=kind, expect=expect,
                             ctype=rng.choice([None, 'application/x-www-form-urlencoded', 'text/plain', 'application/json']), via='views')
         else:
-            t = bl.run_real('chunked', inp, cl, buf, mb, rng=rng, short_p=rng.choice([0.3, 1.0]), kind=kind, expect=expect, ctype=rng.choice(bl.CTYPES))
+            t = bl.run_real('chunked', inp, cl, buf, mb, rng=rng, short_p=rng.choice([0.3, 1.0]), kind=kind, expect=expect, ctype=rng.choice(bl.CTYPES),
+                            via=rng.choice([None, None, None, 'stream']))
         if kind == 'legal' and mb >= 0:
             # how much PAYLOAD the reader had taken from the stream when it answered (framing bytes not counted)
             got = sum(e[1] for e in t['ev'])
